@@ -103,6 +103,7 @@ type FuncGen struct {
 	splitExtra []string
 	opaque     map[string]bool
 	frameCache map[string][]frameLoc
+	ghostState *State // state in which `ghost at call` statements of an uncontracted call are evaluated
 	postParts  map[int][]string
 	assignParts []string
 	retGuards  []string
@@ -242,10 +243,20 @@ func (g *FuncGen) run() {
 		g.vals[p] = v
 		g.params[p.Name()] = v
 	}
+	var fvTerms []string
 	for _, fv := range fn.FreeVars {
 		v := g.declParam("fv_"+fv.Name(), fv.Type())
 		g.vals[fv] = v
 		g.params[fv.Name()] = v
+		// a free variable is the address of a variable of the enclosing function: non-nil, and distinct
+		// variables have distinct addresses
+		if _, isPtr := fv.Type().Underlying().(*types.Pointer); isPtr && v.T != "" {
+			g.c.assert(not(eq(v.T, "0")))
+			fvTerms = append(fvTerms, v.T)
+		}
+	}
+	if len(fvTerms) > 1 {
+		g.c.assert("(distinct " + strings.Join(fvTerms, " ") + ")")
 	}
 	// requires
 	if g.contract != nil {
